@@ -211,6 +211,25 @@ def rule_prev_class(ctx):
         loops = fn.loops()
         for bi, t in fn.calls(lambda t: callee(t).endswith("::bonus_for")):
             prev = fn.expr_of_operand(t["args"][1])
+            # `let before = mem::replace(&mut prev_class, class)`: the carried variable is the one being replaced,
+            # its in-loop definition is the replace call (new value = 2nd argument)
+            if prev[0] == "call" and str(prev[1]).endswith("mem::replace") and peel(prev[2][0])[0] == "local":
+                carried = peel(prev[2][0])[1]
+                rb = prev[4][0]
+                inner = [l for l in loops if bi in l[1] and rb in l[1]]
+                if not inner:
+                    continue
+                h, body, srcs = min(inner, key=lambda l: len(l[1]))
+                n += 1
+                key = "%s|prev-class|%s" % (fn.path, fn.names.get(carried, "_%d" % carried))
+                stale = [s_ for s_ in srcs if s_ in fn.reach_from(h, removed_nodes={rb})]
+                if stale:
+                    ctx.violation(key, site(fn, bi), "loop-carried previous-class `%s` is not updated on every iteration (a path from the loop header to the back edge skips the mem::replace)" % fn.names.get(carried))
+                elif any(x[0] == "call" and (str(x[3]).endswith("char_class_and_normalize") or str(x[3]).endswith("Char::char_class") or str(x[1]).endswith("::char_class")) for x in walk(prev[2][1])):
+                    ctx.ok(site(fn, bi), "previous class carried on every iteration (mem::replace) and taken from the current element")
+                else:
+                    ctx.violation(key + "|value", site(fn, bi), "previous-class is assigned something other than the class of the current element")
+                continue
             if prev[0] != "local" or len(fn.defs.get(prev[1], [])) < 2:
                 continue
             inner = [l for l in loops if bi in l[1]]
